@@ -82,6 +82,13 @@ type FileWrite struct {
 	MtimeAgoS int `json:"mtime_ago_s,omitempty"`
 	// EditAfterUs/Content2 (with Rename): this many microseconds after the rename the new file is edited in
 	// place (single pwrite of Content2) - a second change hard on the heels of the replacement
+	// RemoveFirst (with Create): the file is removed, GapUs microseconds later it is created again with the
+	// content (rm + cp, an editor that unlinks before it writes, a configuration-management tool)
+	RemoveFirst bool `json:"remove_first,omitempty"`
+	GapUs       int  `json:"gap_us,omitempty"`
+	// NoFDs (with Rename): from just before the rename until 80 ms after it the process cannot open any
+	// further file descriptor (RLIMIT_NOFILE soft limit 0) - descriptor exhaustion at the moment of a refresh
+	NoFDs       bool   `json:"no_fds,omitempty"`
 	EditAfterUs int    `json:"edit_after_us,omitempty"`
 	Content2    string `json:"content2,omitempty"`
 	// Repeat/IntervalUs (bursts only): write the content Repeat more times, IntervalUs apart, while
@@ -484,6 +491,24 @@ func chainChild() {
 					rr.WriteErr = err.Error()
 				} else if rq.Write.MtimeAgoS > 0 && os.Chtimes(tmp, time.Now(), time.Now().Add(-time.Duration(rq.Write.MtimeAgoS)*time.Second)) != nil {
 					rr.WriteErr = "chtimes failed"
+				} else if rq.Write.NoFDs {
+					var lim, zero syscall.Rlimit
+					if err := syscall.Getrlimit(syscall.RLIMIT_NOFILE, &lim); err != nil {
+						rr.WriteErr = "getrlimit: " + err.Error()
+					} else {
+						zero = lim
+						zero.Cur = 0
+						if err := syscall.Setrlimit(syscall.RLIMIT_NOFILE, &zero); err != nil {
+							rr.WriteErr = "setrlimit: " + err.Error()
+						} else {
+							err := os.Rename(tmp, path)
+							time.Sleep(80 * time.Millisecond)
+							syscall.Setrlimit(syscall.RLIMIT_NOFILE, &lim)
+							if err != nil {
+								rr.WriteErr = err.Error()
+							}
+						}
+					}
 				} else if err := os.Rename(tmp, path); err != nil {
 					rr.WriteErr = err.Error()
 				} else if rq.Write.Content2 != "" {
@@ -496,6 +521,11 @@ func chainChild() {
 					}
 				}
 			} else if rq.Write.Create {
+				if rq.Write.RemoveFirst {
+					os.Remove(path)
+					for t0 := time.Now(); time.Since(t0) < time.Duration(rq.Write.GapUs)*time.Microsecond; {
+					}
+				}
 				if err := os.WriteFile(path, []byte(rq.Write.Content), 0o644); err != nil {
 					rr.WriteErr = err.Error()
 				}
